@@ -109,6 +109,11 @@ def run(ctx):
                     t["assumptions"] = None
     rep.lap("slice_list_source")
 
+    # ---- what the OpenMP loop of this build shares between its threads -------------------
+    core.check_omp_sharing(ctx, "ndl_openmp", {"learn_inplace_binary_to_binary"},
+                           ["C02_openmp_schedule_independent", "C02_openmp_workers_end_to_end"], observe=True)
+    rep.lap("omp_sharing")
+
     # ---- event sets -------------------------------------------------------------------
     sets = []
     # exactly-once probes
